@@ -4,7 +4,7 @@ EXTENDS MCSdl
 \* ---- quick ----
 QuickSlices == <<
   \* A: one service, every body kind x every expose kind, one or two placements
-  Sl("A", <<"web">>, <<"large">>, <<"east", "west">>, [s \in {"web"} |-> AllBodies], [s \in {"web"} |-> AllKinds],
+  Sl("A", <<"web">>, <<"large">>, <<"east", "west">>, [s \in {"web"} |-> AllBodies], [s \in {"web"} |-> AllKinds \cup BadKinds],
      {1, 49}, [c \in {"large"} |-> <<List(<<QLarge>>)>>]),
   \* B: two services on one placement, two profiles
   Sl("B", <<"api", "web">>, <<"large", "small">>, <<"east">>,
